@@ -1,6 +1,8 @@
 package link_holdopen_controller
 
 import (
+	"context"
+
 	"github.com/aperturerobotics/bifrost/link"
 	"github.com/aperturerobotics/bifrost/peer"
 	"github.com/aperturerobotics/controllerbus/directive"
@@ -81,5 +83,63 @@ func VerifC33HoldOpen() {
 	}
 	rt.Assert("links exist <=> exactly one strong reference is held", inst.strong == want)
 	rt.Assert("handler's own count of links is exact", h.valCount == live)
+	rt.Reach("end")
+}
+
+// c33LiveInst is an instance that already has link values when the hold-open handler subscribes: like
+// the real directive instance it delivers the existing values from inside AddReference.
+type c33LiveInst struct {
+	c33Inst
+	existing int
+	handler  directive.ReferenceHandler
+}
+
+func (i *c33LiveInst) AddReference(cb directive.ReferenceHandler, weak bool) directive.Reference {
+	if weak && cb != nil && i.handler == nil {
+		i.handler = cb
+		for k := 0; k < i.existing; k++ {
+			cb.HandleValueAdded(i, directive.NewAttachedValue(uint32(100+k), link.MountedLink(&c33Link{id: uint64(100 + k)})))
+		}
+		return &c33Ref{inst: &c33Inst{}}
+	}
+	if !weak {
+		i.strong++
+		i.total++
+	}
+	return &c33Ref{inst: &i.c33Inst}
+}
+
+// VerifC33Existing: the hold-open controller meets a link request that already has 0..2 links (it was
+// started after the links came up), then one more link event: at quiescence one strong reference is
+// held exactly while links exist, and the handler's count is the number of links.
+func VerifC33Existing() {
+	p := 1
+	if rt.Tier() > 0 {
+		p = 2
+	}
+	rt.SchedBound(p, true)
+	inst := &c33LiveInst{existing: rt.Choose("existingLinks", 3)}
+	c := &Controller{le: logrus.NewEntry(logrus.New())}
+	c.handleEstablishLink(context.Background(), inst, link.NewEstablishLinkWithPeer("", peer.ID("\x00\x01R")))
+	live := inst.existing
+	rt.Assert("the handler subscribed", inst.handler != nil)
+	h := inst.handler.(*establishLinkHandler)
+	switch rt.Choose("then", 3) {
+	case 1:
+		h.HandleValueAdded(inst, directive.NewAttachedValue(7, link.MountedLink(&c33Link{id: 7})))
+		live++
+	case 2:
+		if live > 0 {
+			h.HandleValueRemoved(inst, directive.NewAttachedValue(100, link.MountedLink(&c33Link{id: 100})))
+			live--
+		}
+	}
+	rt.Quiesce()
+	want := 0
+	if live > 0 {
+		want = 1
+	}
+	rt.Assert("links that existed before the controller subscribed are held open like later ones", inst.strong == want)
+	rt.Assert("the handler counts the links that already existed", h.valCount == live)
 	rt.Reach("end")
 }
